@@ -12,12 +12,12 @@
 #include <limits.h>
 
 #define MAXFD 8192
-#define MAXP 1024
+#define MAXP 16384
 static pthread_mutex_t mu = PTHREAD_MUTEX_INITIALIZER;
 static int tracked[MAXFD];          /* 0 unknown, 1 tracked, 2 not a data.evts file */
 static int64_t written_end[MAXFD];  /* end of the highest byte written since open */
 static int pidx[MAXFD];
-#define MAXR 256
+#define MAXR 64
 struct pent { char path[512]; int64_t synced_end; int64_t written_end; long syncs; int nr; int64_t lo[MAXR], hi[MAXR]; };
 static struct pent ptab[MAXP];
 static int np = 0;
